@@ -130,6 +130,56 @@ theorem kind_examples (opt : DiffOpt) (k : Kind) (base probe : Arr) (hp : probe.
             restoration := none, model := none, restorationFirst := true } k (some base) [] probe).kind = k := by
   simp [call, resultKind, stageList, cleaningFilter, runStages, Stage.pure, StageFn.eval, Arr.ndim, diff, hp]
 
+/-- **The stock reductions** (`MonochromaticReduction`): `gray` weighs the channels in the order R, G, B with
+0.299 / 0.587 / 0.114 — a neutral pixel keeps its value, a pure red signal gives 0.299 and a pure blue one 0.114
+(the order matters); every named reduction maps the zero signal to zero (hypothesis of `baseline_zero`). -/
+theorem reduction_semantics (r g b v : Rat) :
+    grayOf [r, g, b] = 299 / 1000 * r + 587 / 1000 * g + 114 / 1000 * b ∧ grayOf [v, v, v] = v ∧
+    grayOf [1, 0, 0] = 299 / 1000 ∧ grayOf [0, 0, 1] = 114 / 1000 ∧
+    (∀ f ∈ [StageFn.gray, .negKey, .chan 0, .chan 1, .chan 2, .chanAdd 0 1],
+      ZeroPreserving (some (Stage.pure f.eval))) := by
+  refine ⟨(by simp [grayOf, listGetD]), (by simp only [grayOf, listGetD, List.getElem?_cons_zero, List.getElem?_cons_succ, Option.getD_some]; linarith),
+    (by simp [grayOf, listGetD]), (by simp [grayOf, listGetD]), ?_⟩
+  intro f hf s hs a ha p hp x hx
+  cases hs
+  simp only [List.mem_cons, List.not_mem_nil, or_false] at hf
+  have hz : ∀ q ∈ a.px, ∀ k, listGetD q k 0 = 0 := by
+    intro q hq k
+    simp only [listGetD]
+    cases hk : q[k]? with
+    | none => rfl
+    | some y => simpa using ha q hq y (List.mem_of_getElem? hk)
+  rcases hf with rfl | rfl | rfl | rfl | rfl | rfl
+  all_goals (
+    simp only [Stage.pure, StageFn.eval, List.mem_map] at hp
+    obtain ⟨q, hq, rfl⟩ := hp
+    simp only [List.mem_singleton] at hx
+    subst hx)
+  · simp [grayOf, hz q hq]
+  · have hq0 : ∀ y ∈ q, y = 0 := ha q hq
+    have hfold : ∀ (l : List Rat) (m : Rat), (∀ y ∈ l, y = 1) → m = 1 → l.foldl (fun m x => if x ≤ m then x else m) m = 1 := by
+      intro l
+      induction l with
+      | nil => intro m _ hm; simpa using hm
+      | cons y l ih =>
+        intro m hl hm
+        simp only [List.foldl_cons]
+        apply ih _ (fun z hz' => hl z (by simp [hz']))
+        rw [hl y (by simp), hm]; simp
+    rw [hfold]
+    · simp
+    · intro y hy
+      simp only [List.mem_map] at hy
+      obtain ⟨z, hz', rfl⟩ := hy
+      rw [hq0 z hz']; simp
+    · cases q with
+      | nil => simp
+      | cons z _ => simp [hq0 z (by simp)]
+  · simp [hz q hq]
+  · simp [hz q hq]
+  · simp [hz q hq]
+  · simp [hz q hq]
+
 /-- **No wrap-around for integer images** (`uint8`: bits = 8, `uint16`: bits = 16). The code promotes both images
 with `img_as(float)` (value / (2^bits − 1)) before `_subtract_background`; then, for every difference option and all
 pixel values of the type, the difference is exactly the (clipped / absolute / plain) *integer* difference divided by
